@@ -292,6 +292,10 @@ class SymSpec(object):
     def same_buffer(self, a, b):
         return isinstance(a, symnp.ndarray) and isinstance(b, symnp.ndarray) and a.buf is b.buf
 
+    def writable(self, a):
+        """the array accepts in-place assignment (NumPy's flags.writeable)"""
+        return isinstance(a, symnp.ndarray) and not a.buf.tags.get("readonly")
+
 
 def decode_model(S, model):
     """evaluate every declared input in a z3 model -> JSON-able dict"""
